@@ -5,6 +5,7 @@
 # License: http://snmplabs.com/pyasn1/license.html
 #
 from pyasn1 import error
+from pyasn1.compat import integer
 
 __all__ = ['tagClassUniversal', 'tagClassApplication', 'tagClassContext',
            'tagClassPrivate', 'tagFormatSimple', 'tagFormatConstructed',
@@ -65,7 +66,8 @@ class Tag(object):
 
     def __repr__(self):
         representation = '[%s:%s:%s]' % (
-            self.__tagClass, self.__tagFormat, self.__tagId)
+            self.__tagClass, self.__tagFormat,
+            integer.to_string(self.__tagId))
         return '<%s object, tag %s>' % (
             self.__class__.__name__, representation)
 
@@ -194,8 +196,10 @@ class TagSet(object):
         self.__hash = hash(self.__superTagsClassId)
 
     def __repr__(self):
-        representation = '-'.join(['%s:%s:%s' % (x.tagClass, x.tagFormat, x.tagId)
-                                   for x in self.__superTags])
+        representation = '-'.join(
+            ['%s:%s:%s' % (x.tagClass, x.tagFormat,
+                           integer.to_string(x.tagId))
+             for x in self.__superTags])
         if representation:
             representation = 'tags ' + representation
         else:
